@@ -441,6 +441,7 @@ pub fn run(opts: &Opts) -> i32 {
         r.after()
     });
     rep.assume("the interval between handler completion and the ack appearing on the wire is left open by the statement and is not tested");
+    super::c11_after::run_part(opts, &rep);
     rep.require("reuse_while_in_use_refused", 500);
     rep.require("reuse_after_ack_accepted", 500);
     rep.require("pubrel_not_in_use_refused", 100);
